@@ -186,7 +186,7 @@ def _snapshot(runner, tick, ok: bool, rec: Rec) -> dict:
         }
     heap = [(at, type(t).__name__, getattr(t, "step_name", None)) for (at, _s, t) in runner.scheduled_wakeups]
     try:
-        mailbox = runner.adapter._queues.receive_queue.qsize()
+        mailbox = base_adapter(runner.adapter)._queues.receive_queue.qsize()
     except Exception:  # noqa: BLE001
         mailbox = None
     return {
@@ -204,6 +204,15 @@ def _snapshot(runner, tick, ok: bool, rec: Rec) -> dict:
         "state_obj": st,
         "runner": runner,
     }
+
+
+def base_adapter(adapter):
+    """Unwrap runtime-decorator adapters down to the BasicRuntime adapter that owns the queues."""
+    seen = 0
+    while not hasattr(adapter, "_queues") and hasattr(adapter, "_decorated") and seen < 10:
+        adapter = adapter._decorated
+        seen += 1
+    return adapter
 
 
 def _uid_of(ev) -> Any:
@@ -423,6 +432,13 @@ def build_workflow(spec: dict, runtime=None, retry_builder=None, wf_kwargs: dict
                     raise
                 except asyncio.CancelledError:
                     inv["t_out"], inv["exit"], inv["s_out"] = VClock.t, "cancelled", rec.nseq()
+                    if s.get("cancel_delay"):
+                        # teardown that takes a moment to honour the cancellation (within the engine's 0.5 s grace)
+                        try:
+                            await asyncio.sleep(s["cancel_delay"])
+                        except asyncio.CancelledError:
+                            pass
+                        inv["t_out"] = VClock.t
                     if s.get("cancel_note"):
                         # teardown code that reports progress while being cancelled
                         try:
